@@ -190,7 +190,15 @@ func c04(r *Report) {
 		for _, c := range cops {
 			isSend := func(i ssa.Instruction) bool {
 				s, ok := i.(*ssa.Send)
-				return ok && s.Chan.Type().Underlying().(*types.Chan) != nil
+				if !ok {
+					return false
+				}
+				// only the channel handed in by the joiner counts, not a channel local to the copier
+				switch s.Chan.(type) {
+				case *ssa.Parameter, *ssa.FreeVar:
+					return true
+				}
+				return false
 			}
 			sc := countBefore(c.Fn, isSend)
 			// a send in a deferred closure registered in the entry block happens once on every exit
@@ -202,8 +210,10 @@ func c04(r *Report) {
 				}
 				if mc, isMC := d.Call.Value.(*ssa.MakeClosure); isMC {
 					for _, in := range instrs(mc.Fn.(*ssa.Function)) {
-						if _, isS := in.(*ssa.Send); isS {
-							deferred++
+						if sd, isS := in.(*ssa.Send); isS {
+							if _, fromParam := resolveFree(sd.Chan).(*ssa.Parameter); fromParam {
+								deferred++
+							}
 						}
 					}
 				}
